@@ -37,6 +37,8 @@ def _worker(args):
         from . import symex as _sx
         framescan.take_executed()
         _sx.ASSUME_SITES.clear()
+        from . import solve as _solve
+        _solve.reset_given_up()
         out = t.run(tier)
         out['assume_sites'] = dict(_sx.ASSUME_SITES)
         out['results'] = list(out.get('results', []))
